@@ -41,8 +41,7 @@ class ImporteeModuleCalculator:
                 # "from . import bar" - bar is a function/class of an internal module and not a module itself
                 continue
 
-            if str(self._root_path) not in importee:
-                extended_modules.update(self._calculate_parent_modules(imp))
+            extended_modules.update(self._calculate_parent_modules(imp))
 
         return list(extended_modules)
 
